@@ -602,6 +602,15 @@ pub struct History {
     pub ops: Vec<Op>,
     /// redeemers (ints) used for the behavioural comparison at the end
     pub redeemers: Vec<i64>,
+    /// Plutus version the plutus.json claims: the tool-chain builds v3 only, but `aiken blueprint
+    /// apply|address|policy` also serve blueprints written by earlier releases. For 1 and 2 the
+    /// built file is re-labelled (preamble + hashes under that version's tag) before the history.
+    #[serde(default = "three")]
+    pub plutus: u8,
+}
+
+fn three() -> u8 {
+    3
 }
 
 #[derive(Clone, Debug)]
@@ -746,9 +755,24 @@ fn execute_inner(h: &History) -> Result<HistoryOutcome, String> {
         groups: 0,
         near_miss_kinds: vec![],
     };
-    let initial = read_json(&path).ok_or("cannot read plutus.json")?;
+    let mut initial = read_json(&path).ok_or("cannot read plutus.json")?;
+    let version_tag = if (1..=3).contains(&h.plutus) { h.plutus } else { 3 };
+    if version_tag != 3 {
+        // the same code published as a Plutus V1 / V2 blueprint
+        if let Some(p) = initial.get_mut("preamble").and_then(|p| p.as_object_mut()) {
+            p.insert("plutusVersion".into(), json!(format!("v{version_tag}")));
+        }
+        if let Some(vs) = initial.get_mut("validators").and_then(|v| v.as_array_mut()) {
+            for v in vs {
+                let code = jstr(v, "compiledCode");
+                if let (Some(o), Some(hash)) = (v.as_object_mut(), independent_hash(&code, version_tag)) {
+                    o.insert("hash".into(), json!(hash));
+                }
+            }
+        }
+        std::fs::write(&path, serde_json::to_string_pretty(&initial).map_err(|e| e.to_string())?).map_err(|e| e.to_string())?;
+    }
     let defs = initial.get("definitions").cloned().unwrap_or(json!({}));
-    let version_tag = 3u8;
     // Model: one group per (module, validator).
     let mut groups: Vec<Group> = vec![];
     for v in initial.get("validators").and_then(|v| v.as_array()).cloned().unwrap_or_default() {
@@ -812,7 +836,7 @@ fn execute_inner(h: &History) -> Result<HistoryOutcome, String> {
             if independent_hash(&code, version_tag).as_deref() != Some(hash.as_str()) {
                 out.violations.push((
                     "stale-hash".into(),
-                    format!("{title}: published hash {hash} is not blake2b-224(0x03 ‖ compiledCode) = {:?}", independent_hash(&code, version_tag)),
+                    format!("{title}: published hash {hash} is not blake2b-224(0x0{version_tag} ‖ compiledCode) = {:?}", independent_hash(&code, version_tag)),
                     step,
                 ));
             }
@@ -968,7 +992,10 @@ fn execute_inner(h: &History) -> Result<HistoryOutcome, String> {
                                     // script address without delegation: header 0x70 (testnet) / 0x71
                                     // (mainnet) ‖ hash
                                     // with a key delegation part: header 0x10 ‖ script hash ‖ key hash
-                                    if p != &hash || a != &format!("70{hash}|71{hash}|10{hash}{}", "5a".repeat(28)) {
+                                    // (the address command takes the Plutus version from aiken.toml, which
+                                    // can only say v3; for a re-labelled v1/v2 blueprint only the policy,
+                                    // which follows the blueprint, is compared)
+                                    if p != &hash || (version_tag == 3 && a != &format!("70{hash}|71{hash}|10{hash}{}", "5a".repeat(28))) {
                                         out.violations.push((
                                             "address-hash-mismatch".into(),
                                             format!("{}.{}: policy {p}, address {a}, published hash {hash}", g.module, g.validator),
@@ -1155,6 +1182,7 @@ fn gen_history(rng: &mut Rng, spec: ProjSpec, epoch: u64) -> Result<History, Str
         trace_level: rng.below(3) as u8,
         ops,
         redeemers: (0..3).map(|_| rng.range(-60, 120)).collect(),
+        plutus: *rng.pick(&[3u8, 3, 3, 3, 3, 3, 2, 2, 2, 1]),
     })
 }
 
@@ -1282,6 +1310,7 @@ impl Engine for BlueprintEngine {
         ctx.logical_steps += outcome.ops_done as u64;
         ctx.stats.inc("evaluations", outcome.ops_done as u64 + outcome.evals as u64);
         ctx.stats.inc("operations", outcome.ops_done as u64);
+        ctx.stats.inc(&format!("histories_plutus_v{}", h.plutus), 1);
         ctx.stats.inc("applies_accepted", outcome.accepted as u64);
         ctx.stats.inc("applies_rejected", outcome.rejected as u64);
         ctx.stats.inc("behaviour_evaluations", outcome.evals as u64);
